@@ -220,11 +220,11 @@ class BaseStyle(MagicProperties):
     @description.setter
     def description(self, val):
         if isinstance(val, str):
-            self._description = Description(text=val)
-        else:
-            self._description = validate_property_class(
-                val, "description", Description, self
-            )
+            # shortcut for the `text` property, the other properties keep their values
+            val = {"text": val}
+        self._description = validate_property_class(
+            val, "description", Description, self
+        )
 
     @property
     def legend(self):
@@ -234,9 +234,9 @@ class BaseStyle(MagicProperties):
     @legend.setter
     def legend(self, val):
         if isinstance(val, str):
-            self._legend = Legend(text=val)
-        else:
-            self._legend = validate_property_class(val, "legend", Legend, self)
+            # shortcut for the `text` property, the other properties keep their values
+            val = {"text": val}
+        self._legend = validate_property_class(val, "legend", Legend, self)
 
     @property
     def color(self):
